@@ -3,4 +3,4 @@ From CV Require Import Base.Num C04.ABFModel.
 Extraction Language OCaml.
 Extraction "model.ml" mkNumOps idx_eqb zget bget zrange vget vbuild vzero mkCfg mkSt mkIn mkOut
   value_to_bin bins index_ok clock smooth_inverse_weight inv_weight average grad_out cap1 calc_biasing_force
-  abf_step abf_mstep abf_init abf_init_late abf_add_data abf_init_data abf_set_grids abf_event_apply abf_run_events abf_run_from abf_run abf_run_data sample_force deliveries attributed samples_in.
+  awake st_clk abf_bin_num abf_current_bin abf_count_current abf_step abf_mstep abf_init abf_init_late abf_add_data abf_init_data abf_set_grids abf_event_apply abf_run_events abf_run_from abf_run abf_run_data sample_force deliveries attributed samples_in.
